@@ -299,6 +299,21 @@ func runC05(rec5, rec13 *vk.Rec, caseID, seedIdx int, regime string) {
 			transport(r.Range(1, 6))
 		}
 		transport(r.Range(0, 3))
+		if (regime == "S2" || regime == "S3" || regime == "S4") && len(live) > 0 && r.Chance(12) {
+			// a client publishes and the peers' 5 ms flusher forwards what was queued for other brokers; with links down
+			// there may be no route, GossipUnicast then fails - which must not disturb the routing table
+			c := live[r.Intn(len(live))]
+			if c.alive {
+				ch := c05Channels[r.Intn(len(c05Channels))]
+				ops = append(ops, fmt.Sprintf("%s publish %s; flush peer queues", c.name, cstr(ch)))
+				if _, err := c.cl.Publish(key+"/"+cstr(ch), []byte("mid-history"), false); err != nil {
+					rec.Inconclusive("publish: " + err.Error())
+					return
+				}
+				net.FlushPeers()
+				rec.Inc("mid_history_publishes")
+			}
+		}
 	}
 	// ---- regime S4r: after the client activity has ended and gossip has quiesced, one broker becomes unreachable,
 	// is garbage-collected by the others (and collects them), and returns; no client does anything meanwhile
